@@ -47,7 +47,7 @@ type spec struct {
 	Pick    []int  // column picks; empty = "*"
 	Star    int    // position at which a "*" is inserted (-1: none)
 	Bad     string // "", "table", "column", "not-select", "syntax"
-	Plan    string // all, close, cancel, cancel-async, corrupt
+	Plan    string // all, close, cancel, cancel-async, corrupt, truncate, prepared, prepared-alter
 	K       int    // rows consumed before close / cancel
 	Yields  int    // scheduler yields before the asynchronous cancel
 	Corrupt int    // which page (mod page count) is overwritten with 0xFF for the "corrupt" plan
@@ -65,7 +65,7 @@ func TestC19Driver(t *testing.T) {
 			}
 			s.Star = rapid.SampledFrom([]int{-1, -1, 0, 1, 2}).Draw(t, "star")
 			s.Bad = rapid.SampledFrom([]string{"", "", "", "", "table", "column", "not-select", "syntax"}).Draw(t, "bad")
-			s.Plan = rapid.SampledFrom([]string{"all", "all", "close", "cancel", "cancel-async", "corrupt", "truncate", "prepared"}).Draw(t, "plan")
+			s.Plan = rapid.SampledFrom([]string{"all", "all", "close", "cancel", "cancel-async", "corrupt", "truncate", "prepared", "prepared-alter"}).Draw(t, "plan")
 			s.K = rapid.IntRange(0, 12).Draw(t, "k")
 			s.Yields = rapid.IntRange(0, 50).Draw(t, "yields")
 			s.Corrupt = rapid.IntRange(0, 1000).Draw(t, "corrupt")
@@ -113,7 +113,7 @@ func run(r *vt.Run, t vt.TB, s spec) {
 		return
 	}
 	// the query
-	var sel, expanded []string
+	var sel, expanded, items []string // items: the select list with "*" unexpanded
 	pool := append(append([]string{}, allCols...), "rowid", "oid")
 	if s.DB.Tables[0].Def.WithoutRowid {
 		pool = allCols
@@ -128,14 +128,17 @@ func run(r *vt.Run, t vt.TB, s spec) {
 	for i, p := range s.Pick {
 		if i == s.Star {
 			sel = append(sel, "*")
+			items = append(items, "*")
 			expanded = append(expanded, allCols...)
 		}
 		c := pool[p%len(pool)]
 		sel = append(sel, quote(c))
+		items = append(items, c)
 		expanded = append(expanded, c)
 	}
 	if len(sel) == 0 || s.Star >= len(s.Pick) {
 		sel = append(sel, "*")
+		items = append(items, "*")
 		expanded = append(expanded, allCols...)
 	}
 	tableSQL := quote(name)
@@ -148,6 +151,7 @@ func run(r *vt.Run, t vt.TB, s spec) {
 	case "column":
 		query = "SELECT nosuchcolumn, " + strings.Join(sel, ", ") + " FROM " + tableSQL
 		expanded = append([]string{"nosuchcolumn"}, expanded...)
+		items = append([]string{"nosuchcolumn"}, items...)
 	case "not-select":
 		query = "CREATE TABLE x (a)"
 	case "syntax":
@@ -213,8 +217,44 @@ func run(r *vt.Run, t vt.TB, s spec) {
 		r.Harness(t, "sql.Open: %v", err)
 	}
 	defer db.Close()
-	if s.Plan == "prepared" {
-		runPrepared(r, t, s, db, path, query, want, wantErr, before)
+	if s.Plan == "prepared" || s.Plan == "prepared-alter" {
+		// the statement's result on the file as it is now (after a schema change)
+		renative := func() (exp []string, want [][]interface{}, wantErr error, ok bool) {
+			nat, err := sqlittle.Open(path)
+			if err != nil {
+				r.Harness(t, "reopen: %v", err)
+			}
+			defer nat.Close()
+			if s.Bad == "not-select" || s.Bad == "syntax" {
+				return nil, nil, fmt.Errorf("not a select"), true
+			}
+			cols, err := nat.Columns(name)
+			if err != nil {
+				return nil, nil, nil, false
+			}
+			for _, it := range items {
+				if it == "*" {
+					exp = append(exp, cols...)
+				} else {
+					exp = append(exp, it)
+				}
+			}
+			wantErr = nat.Select(nativeTable, func(row sqlittle.Row) { want = append(want, append([]interface{}{}, row...)) }, exp...)
+			return exp, want, wantErr, true
+		}
+		var alter string
+		if s.Plan == "prepared-alter" {
+			c := quote(allCols[(s.Corrupt/3)%len(allCols)])
+			switch s.Corrupt % 3 {
+			case 0:
+				alter = "ALTER TABLE " + tableSQL + " ADD COLUMN zz_added DEFAULT 7"
+			case 1:
+				alter = "ALTER TABLE " + tableSQL + " RENAME COLUMN " + c + " TO zz_renamed"
+			case 2:
+				alter = "ALTER TABLE " + tableSQL + " DROP COLUMN " + c
+			}
+		}
+		runPrepared(r, t, s, db, path, query, expanded, want, wantErr, before, alter, renative)
 		return
 	}
 	ctx, cancel := context.WithCancel(context.Background())
@@ -333,7 +373,11 @@ func run(r *vt.Run, t vt.TB, s spec) {
 // runPrepared: a prepared statement outlives its result sets: close the first
 // one after K rows (the lock must be gone while the statement stays open),
 // then run the statement again completely.
-func runPrepared(r *vt.Run, t vt.TB, s spec, db *sql.DB, path, query string, want [][]interface{}, wantErr error, before int) {
+//
+// With alter != "" a writer changes the table definition between the two
+// executions: the second one must follow the new definition, like the native
+// select on the changed file does.
+func runPrepared(r *vt.Run, t vt.TB, s spec, db *sql.DB, path, query string, expanded []string, want [][]interface{}, wantErr error, before int, alter string, renative func() ([]string, [][]interface{}, error, bool)) {
 	stmt, err := db.Prepare(query)
 	if err != nil {
 		if wantErr == nil {
@@ -344,11 +388,33 @@ func runPrepared(r *vt.Run, t vt.TB, s spec, db *sql.DB, path, query string, wan
 	defer stmt.Close()
 	me := os.Getpid()
 	for round := 0; round < 2; round++ {
+		if round == 1 && alter != "" {
+			if err := env.O.Open("alter", path); err != nil {
+				r.Harness(t, "alter: open: %v", err)
+			}
+			aerr := env.O.Exec("alter", alter)
+			env.O.Close("alter")
+			if aerr != nil {
+				r.Count("alter:rejected-by-sqlite", 1)
+			} else {
+				var ok bool
+				if expanded, want, wantErr, ok = renative(); !ok {
+					r.Count("alter:definition-rejected", 1)
+					return
+				}
+				r.Count(fmt.Sprintf("alter:applied:%d", s.Corrupt%3), 1)
+			}
+		}
 		rows, err := stmt.Query()
 		var got [][]interface{}
 		surfaced := err
 		if err == nil {
 			cols, _ := rows.Columns()
+			if s.Bad == "" && wantErr == nil && !strings.EqualFold(strings.Join(cols, "\x00"), strings.Join(expanded, "\x00")) {
+				rows.Close()
+				r.Violation(t, s, "columns-differ", "%s (prepared statement, round %d, after %q): database/sql reports columns %q, the native column list is %q", query, round, alter, cols, expanded)
+				return
+			}
 			for rows.Next() {
 				dest := make([]interface{}, len(cols))
 				ptrs := make([]interface{}, len(cols))
